@@ -335,3 +335,94 @@ theorem historyOK_coreOK (tbl : List Est) (fuel : Nat) (e : Est) (h : e.historyO
     exact h.1.1.2
 
 end SkNet.Estimator
+
+namespace SkNet.Estimator
+
+/-! ### tightness of `coreOK`: a rejected description has a history-dependent conforming implementation -/
+
+/-- an implementation that assigns `mustWrite` always and the attribute `a` only on the input `true` -/
+def staleSem (e : Est) (a : String) (hwf : ∀ b, b ∈ e.mustWrite → b ∈ e.mayWrite) (ha : a ∈ e.mayWrite) :
+    Sem e Bool where
+  nrm := fun _ v => v
+  nrm_idem := fun _ _ => rfl
+  nrm_id := fun _ _ _ => rfl
+  wr := fun _ x => e.mustWrite ++ (if x then [a] else [])
+  new := fun _ _ _ => 1
+  wr_may := by
+    intro s x b hb
+    rcases List.mem_append.mp hb with h | h
+    · exact hwf b h
+    · cases x
+      · simp at h
+      · simp only [if_true, List.mem_cons, List.not_mem_nil, or_false] at h
+        subst h; exact ha
+  wr_must := by
+    intro s x b hb
+    exact List.mem_append.mpr (Or.inl hb)
+  frame := by
+    intro s s' x _
+    exact ⟨rfl, fun _ _ => rfl⟩
+
+theorem stale_witness (e : Est) (a : String) (hwf : ∀ b, b ∈ e.mustWrite → b ∈ e.mayWrite)
+    (ha : a ∈ e.mayWrite) (hnm : a ∉ e.mustWrite) :
+    let sem := staleSem e a hwf ha
+    sem.fit (sem.run (e.fresh (fun _ => 0) (fun _ => 0)) [.fit true]) false a ≠
+      sem.fit (e.fresh (fun _ => 0) (fun _ => 0)) false a := by
+  intro sem
+  have hfresh : ∀ b, e.fresh (fun _ => 0) (fun _ => 0) b = 0 := by
+    intro b; unfold Est.fresh; split <;> rfl
+  have h1 : sem.fit (e.fresh (fun _ => 0) (fun _ => 0)) false a = 0 := by
+    unfold Sem.fit Sem.normalise
+    simp [sem, staleSem, hnm, hfresh]
+  have h2 : sem.fit (sem.run (e.fresh (fun _ => 0) (fun _ => 0)) [.fit true]) false a = 1 := by
+    unfold Sem.run
+    simp only [List.foldl_cons, List.foldl_nil, Sem.apply]
+    unfold Sem.fit Sem.normalise
+    simp [sem, staleSem, hnm]
+  rw [h1, h2]
+  decide
+
+/-- an implementation that assigns `mustWrite` and `a` always, `a` being one more than it was -/
+def counterSem (e : Est) (a : String) (hwf : ∀ b, b ∈ e.mustWrite → b ∈ e.mayWrite) (ha : a ∈ e.mayWrite)
+    (hr : a ∈ e.readsFirst) : Sem e Unit where
+  nrm := fun _ v => v
+  nrm_idem := fun _ _ => rfl
+  nrm_id := fun _ _ _ => rfl
+  wr := fun _ _ => e.mustWrite ++ [a]
+  new := fun s _ b => if b = a then s a + 1 else 0
+  wr_may := by
+    intro s x b hb
+    rcases List.mem_append.mp hb with h | h
+    · exact hwf b h
+    · simp only [List.mem_cons, List.not_mem_nil, or_false] at h
+      subst h; exact ha
+  wr_must := by
+    intro s x b hb
+    exact List.mem_append.mpr (Or.inl hb)
+  frame := by
+    intro s s' x hag
+    refine ⟨rfl, ?_⟩
+    intro b _
+    show (if b = a then s a + 1 else 0) = (if b = a then s' a + 1 else 0)
+    rw [hag a hr]
+
+theorem counter_witness (e : Est) (a : String) (hwf : ∀ b, b ∈ e.mustWrite → b ∈ e.mayWrite)
+    (ha : a ∈ e.mayWrite) (hr : a ∈ e.readsFirst) :
+    let sem := counterSem e a hwf ha hr
+    sem.fit (sem.run (e.fresh (fun _ => 0) (fun _ => 0)) [.fit ()]) () a ≠
+      sem.fit (e.fresh (fun _ => 0) (fun _ => 0)) () a := by
+  intro sem
+  have hfresh : ∀ b, e.fresh (fun _ => 0) (fun _ => 0) b = 0 := by
+    intro b; unfold Est.fresh; split <;> rfl
+  have h1 : sem.fit (e.fresh (fun _ => 0) (fun _ => 0)) () a = 1 := by
+    unfold Sem.fit Sem.normalise
+    simp [sem, counterSem, hfresh]
+  have h2 : sem.fit (sem.run (e.fresh (fun _ => 0) (fun _ => 0)) [.fit ()]) () a = 2 := by
+    unfold Sem.run
+    simp only [List.foldl_cons, List.foldl_nil, Sem.apply]
+    unfold Sem.fit Sem.normalise
+    simp [sem, counterSem, hfresh]
+  rw [h1, h2]
+  decide
+
+end SkNet.Estimator
